@@ -82,5 +82,193 @@ impl NullOutboundAliasResolver {
 //@end
 }
 
+// =====================================================================================================
+// the LRU outbound resolver (C17). `lru::LruCache` is a dependency: R6 shim with the documented behaviour of the methods used
+// (lru 0.12 docs) as assumed specifications. View: the entries from least to most recently used.
+// =====================================================================================================
+#[verifier::external_body]
+#[verifier::reject_recursive_types(K)]
+#[verifier::reject_recursive_types(V)]
+pub struct LruCache<K, V> { k: core::marker::PhantomData<K>, v: core::marker::PhantomData<V> }
+impl LruCache<String, u16> {
+    pub uninterp spec fn view(&self) -> Seq<(Seq<char>, u16)>;
+    pub uninterp spec fn cap(&self) -> nat;
+    // "Returns the number of key-value pairs that are currently in the cache."
+    #[verifier::external_body] pub fn len(&self) -> (r: usize) ensures r == self@.len() { unimplemented!() }
+    // "Returns a reference to the value corresponding to the key in the cache or None ... Unlike get, peek does not update the LRU list"
+    #[verifier::external_body] pub fn peek(&self, k: &str) -> (r: Option<&u16>)
+        ensures match r { Some(v) => exists|i: int| 0 <= i < self@.len() && #[trigger] self@[i] == (k@, *v), None => forall|i: int| 0 <= i < self@.len() ==> (#[trigger] self@[i]).0 != k@ }
+    { unimplemented!() }
+    // "Returns the value corresponding to the least recently used item or None if the cache is empty ... does not update the LRU list"
+    #[verifier::external_body] pub fn peek_lru(&self) -> (r: Option<(&String, &u16)>)
+        ensures match r { Some((k, v)) => self@.len() > 0 && self@[0] == (k@, *v), None => self@.len() == 0 }
+    { unimplemented!() }
+    // "Marks the key as the most recently used one."
+    #[verifier::external_body] pub fn promote(&mut self, k: &str)
+        ensures final(self).cap() == old(self).cap(),
+            (forall|i: int| 0 <= i < old(self)@.len() ==> (#[trigger] old(self)@[i]).0 != k@) ==> final(self)@ == old(self)@,
+            forall|i: int| 0 <= i < old(self)@.len() && (#[trigger] old(self)@[i]).0 == k@ ==> final(self)@ == old(self)@.remove(i).push(old(self)@[i]),
+    { unimplemented!() }
+    // "Removes and returns the key and value corresponding to the least recently used item or None if the cache is empty."
+    #[verifier::external_body] pub fn pop_lru(&mut self) -> (r: Option<(String, u16)>)
+        ensures final(self).cap() == old(self).cap(),
+            old(self)@.len() == 0 ==> r is None && final(self)@ == old(self)@,
+            old(self)@.len() > 0 ==> final(self)@ == old(self)@.subrange(1, old(self)@.len() as int) && (r matches Some((k, v)) && (k@, v) == old(self)@[0]),
+    { unimplemented!() }
+    // "Pushes a key-value pair into the cache. If an entry with key k already exists ... it updates its value [and makes it most recently used].
+    //  Otherwise, if the cache is full, evicts the least recently used entry."
+    #[verifier::external_body] pub fn push(&mut self, k: String, v: u16) -> (r: Option<(String, u16)>)
+        ensures final(self).cap() == old(self).cap(),
+            forall|i: int| 0 <= i < old(self)@.len() && (#[trigger] old(self)@[i]).0 == k@ ==> final(self)@ == old(self)@.remove(i).push((k@, v)),
+            (forall|i: int| 0 <= i < old(self)@.len() ==> (#[trigger] old(self)@[i]).0 != k@) ==>
+                final(self)@ == (if old(self)@.len() >= old(self).cap() { old(self)@.subrange(1, old(self)@.len() as int) } else { old(self)@ }).push((k@, v)),
+    { unimplemented!() }
+    // "Clears the contents of the cache."
+    #[verifier::external_body] pub fn clear(&mut self) ensures final(self)@ == Seq::<(Seq<char>, u16)>::empty(), final(self).cap() == old(self).cap() { unimplemented!() }
+}
+// the data-structure invariant of the crate (a key occurs once, never more entries than the capacity): assumed
+#[verifier::external_body]
+pub proof fn axiom_lru_cache(c: &LruCache<String, u16>)
+    ensures c@.len() <= c.cap(), forall|i: int, j: int| 0 <= i < j < c@.len() ==> (#[trigger] c@[i]).0 != (#[trigger] c@[j]).0,
+{}
+
+//@struct gneiss-mqtt/src/alias.rs LruOutboundAliasResolver
+
+// what the server has been told on this connection, as far as this resolver knows: "alias a stands for topic t"
+pub open spec fn told(c: Seq<(Seq<char>, u16)>, a: u16, t: Seq<char>) -> bool { exists|i: int| 0 <= i < c.len() && #[trigger] c[i] == (t, a) }
+// moving one entry to the most-recently-used end tells the server nothing new
+pub proof fn lemma_told_promote(s: Seq<(Seq<char>, u16)>, i: int)
+    requires 0 <= i < s.len(),
+    ensures forall|a: u16, t: Seq<char>| told(s.remove(i).push(s[i]), a, t) <==> told(s, a, t),
+{
+    let s2 = s.remove(i).push(s[i]);
+    assert forall|a: u16, t: Seq<char>| told(s2, a, t) <==> told(s, a, t) by {
+        if told(s, a, t) {
+            let j = choose|j: int| 0 <= j < s.len() && #[trigger] s[j] == (t, a);
+            if j < i { assert(s2[j] == (t, a)); } else if j == i { assert(s2[s2.len() - 1] == (t, a)); } else { assert(s2[j - 1] == (t, a)); }
+        }
+        if told(s2, a, t) {
+            let j = choose|j: int| 0 <= j < s2.len() && #[trigger] s2[j] == (t, a);
+            if j < i { assert(s[j] == (t, a)); } else if j == s2.len() - 1 { assert(s[i] == (t, a)); } else { assert(s[j + 1] == (t, a)); }
+        }
+    }
+}
+// appending a binding whose alias is not in use
+pub proof fn lemma_told_push(s: Seq<(Seq<char>, u16)>, s2: Seq<(Seq<char>, u16)>, t0: Seq<char>, a0: u16)
+    requires forall|i: int| 0 <= i < s.len() ==> (#[trigger] s[i]).1 != a0, s2 == s.push((t0, a0)),
+    ensures forall|a: u16, t: Seq<char>| #[trigger] told(s2, a, t) <==> ((a == a0 && t == t0) || (a != a0 && told(s, a, t))),
+{
+    assert forall|a: u16, t: Seq<char>| told(s2, a, t) <==> ((a == a0 && t == t0) || (a != a0 && told(s, a, t))) by {
+        if a == a0 && t == t0 { assert(s2[s.len() as int] == (t, a)); }
+        if a != a0 && told(s, a, t) { let j = choose|j: int| 0 <= j < s.len() && #[trigger] s[j] == (t, a); assert(s2[j] == (t, a)); }
+        if told(s2, a, t) { let j = choose|j: int| 0 <= j < s2.len() && #[trigger] s2[j] == (t, a); if j < s.len() { assert(s[j] == (t, a)); } }
+    }
+}
+// dropping the least recently used entry forgets exactly its binding (aliases are pairwise distinct)
+pub proof fn lemma_told_drop_first(s: Seq<(Seq<char>, u16)>, s1: Seq<(Seq<char>, u16)>)
+    requires s.len() > 0, forall|i: int, j: int| 0 <= i < j < s.len() ==> (#[trigger] s[i]).1 != (#[trigger] s[j]).1, s1 == s.subrange(1, s.len() as int),
+    ensures forall|a: u16, t: Seq<char>| #[trigger] told(s1, a, t) <==> (a != s[0].1 && told(s, a, t)),
+{
+    assert forall|a: u16, t: Seq<char>| told(s1, a, t) <==> (a != s[0].1 && told(s, a, t)) by {
+        if told(s1, a, t) { let j = choose|j: int| 0 <= j < s1.len() && #[trigger] s1[j] == (t, a); assert(s[j + 1] == (t, a)); assert(s[0].1 != s[j + 1].1); }
+        if a != s[0].1 && told(s, a, t) { let j = choose|j: int| 0 <= j < s.len() && #[trigger] s[j] == (t, a); assert(j >= 1); assert(s1[j - 1] == (t, a)); }
+    }
+}
+
+// the aliases in use are exactly 1..=len, each once; never more than the maximum in force; the cache is large enough
+pub open spec fn lru_wf(r: LruOutboundAliasResolver) -> bool {
+    &&& r.cache@.len() <= r.current_maximum_alias_value && r.current_maximum_alias_value <= r.maximum_alias_value
+    &&& r.cache.cap() >= r.maximum_alias_value && r.cache.cap() >= 1
+    &&& forall|i: int| 0 <= i < r.cache@.len() ==> 1 <= (#[trigger] r.cache@[i]).1 <= r.cache@.len()
+    &&& forall|i: int, j: int| 0 <= i < j < r.cache@.len() ==> (#[trigger] r.cache@[i]).1 != (#[trigger] r.cache@[j]).1
+}
+
+impl LruOutboundAliasResolver {
+//@fn gneiss-mqtt/src/alias.rs LruOutboundAliasResolver::resolve_topic_alias props=C17,C11
+    requires lru_wf(*self),
+    ensures
+        // never 0, never above the maximum in force; no alias at all when the server allows none
+        r.alias matches Some(a) ==> 1 <= a <= self.current_maximum_alias_value,
+        self.current_maximum_alias_value == 0 ==> r.alias is None && !r.skip_topic,
+        self.current_maximum_alias_value > 0 ==> r.alias is Some,
+        // the topic is omitted only for a topic whose binding the server was told on this connection
+        r.skip_topic <==> (exists|i: int| 0 <= i < self.cache@.len() && (#[trigger] self.cache@[i]).0 == topic@) && self.current_maximum_alias_value > 0,
+        r.skip_topic ==> exists|i: int| 0 <= i < self.cache@.len() && #[trigger] self.cache@[i] == (topic@, r.alias->Some_0),
+        // a new binding takes the next unused alias, or recycles the least recently used one
+        (r.alias is Some && !r.skip_topic) ==> (if self.cache@.len() >= self.current_maximum_alias_value { r.alias->Some_0 == self.cache@[0].1 } else { r.alias->Some_0 == self.cache@.len() + 1 }),
+//@end
+
+//@fn gneiss-mqtt/src/alias.rs reset_for_new_connection props=C17 impl={OutboundAliasResolver for LruOutboundAliasResolver} as=lru_reset_for_new_connection
+    requires old(self).cache.cap() >= old(self).maximum_alias_value, old(self).cache.cap() >= 1,
+    // bindings never survive a reconnect; the maximum in force is the smaller of the configured size and the server's Topic Alias Maximum
+    ensures lru_wf(*final(self)), final(self).cache@.len() == 0,
+        final(self).current_maximum_alias_value == (if maximum_alias_value < old(self).maximum_alias_value { maximum_alias_value } else { old(self).maximum_alias_value }),
+        final(self).maximum_alias_value == old(self).maximum_alias_value,
+//@end
+
+//@fn gneiss-mqtt/src/alias.rs resolve_and_apply_topic_alias props=C17,C11 impl={OutboundAliasResolver for LruOutboundAliasResolver} as=lru_resolve_and_apply_topic_alias
+    requires lru_wf(*old(self)),
+    ensures lru_wf(*final(self)),
+        r.alias matches Some(a) ==> 1 <= a <= old(self).current_maximum_alias_value,
+        old(self).current_maximum_alias_value == 0 ==> r.alias is None && !r.skip_topic,
+        r.skip_topic ==> (r.alias is Some && told(old(self).cache@, r.alias->Some_0, topic@)),
+        // the resolver's alias table changes exactly as the server's does when it receives this publish: unchanged when the topic is
+        // omitted or no alias is used, otherwise the alias is (re)bound to this topic and every other binding is kept
+        (r.alias is None || r.skip_topic) ==> (forall|a: u16, t: Seq<char>| told(final(self).cache@, a, t) <==> told(old(self).cache@, a, t)),
+        (r.alias is Some && !r.skip_topic) ==> (forall|a: u16, t: Seq<char>| told(final(self).cache@, a, t) <==>
+            ((a == r.alias->Some_0 && t == topic@) || (a != r.alias->Some_0 && told(old(self).cache@, a, t)))),
+        final(self).current_maximum_alias_value == old(self).current_maximum_alias_value, final(self).maximum_alias_value == old(self).maximum_alias_value,
+//@@at bodystart
+        proof { axiom_lru_cache(&self.cache); }
+//@@at before "self.cache.promote(topic);"
+            proof {
+                let i0 = choose|i: int| 0 <= i < self.cache@.len() && #[trigger] self.cache@[i] == (topic@, resolution.alias->Some_0);
+                lemma_told_promote(self.cache@, i0);
+                // the key occurs once: promote moves exactly that entry
+                assert forall|i: int| 0 <= i < self.cache@.len() && (#[trigger] self.cache@[i]).0 == topic@ implies i == i0 by {}
+            }
+//@@at after "self.cache.promote(topic);"
+            proof {
+                let i0 = choose|i: int| 0 <= i < old(self).cache@.len() && #[trigger] old(self).cache@[i] == (topic@, resolution.alias->Some_0);
+                assert(self.cache@ == old(self).cache@.remove(i0).push(old(self).cache@[i0]));
+                let s2 = self.cache@; let s0 = old(self).cache@;
+                assert forall|i: int| 0 <= i < s2.len() implies 1 <= (#[trigger] s2[i]).1 <= s2.len() by { if i < i0 { assert(s2[i] == s0[i]); } else if i < s2.len() - 1 { assert(s2[i] == s0[i + 1]); } else { assert(s2[i] == s0[i0]); } }
+                assert forall|i: int, j: int| 0 <= i < j < s2.len() implies (#[trigger] s2[i]).1 != (#[trigger] s2[j]).1 by {
+                    let oi = if i < i0 { i } else if i < s2.len() - 1 { i + 1 } else { i0 };
+                    let oj = if j < i0 { j } else if j < s2.len() - 1 { j + 1 } else { i0 };
+                    assert(s2[i] == s0[oi] && s2[j] == s0[oj] && oi != oj);
+                }
+            }
+//@@at before "if self.cache.len() == self.current_maximum_alias_value as usize {"
+            let ghost s0 = self.cache@;
+//@@at before "let resolved_alias = resolution.alias.unwrap();"
+            let ghost s1 = self.cache@;
+            proof {
+                if s0.len() == self.current_maximum_alias_value { assert(s1 == s0.subrange(1, s0.len() as int)); lemma_told_drop_first(s0, s1); } else { assert(s1 == s0); }
+            }
+//@@at after "self.cache.push(topic.to_string(), resolved_alias);"
+            proof {
+                let a0 = resolution.alias->Some_0;
+                // the topic was not bound (else the topic would have been omitted), and the cache has room: push appends
+                assert forall|i: int| 0 <= i < s1.len() implies (#[trigger] s1[i]).0 != topic@ by { if s0.len() == self.current_maximum_alias_value { assert(s1[i] == s0[i + 1]); } }
+                assert(s1.len() < self.cache.cap());
+                assert(self.cache@ == s1.push((topic@, a0)));
+                assert forall|i: int| 0 <= i < s1.len() implies (#[trigger] s1[i]).1 != a0 by { if s0.len() == self.current_maximum_alias_value { assert(s1[i] == s0[i + 1]); assert(s0[0].1 != s0[i + 1].1); } }
+                let s2 = self.cache@;
+                lemma_told_push(s1, s2, topic@, a0);
+                assert(s0 == old(self).cache@);
+                if s0.len() == self.current_maximum_alias_value { lemma_told_drop_first(s0, s1); assert(a0 == s0[0].1); }
+                assert forall|a: u16, t: Seq<char>| told(s2, a, t) <==> ((a == a0 && t == topic@) || (a != a0 && told(s0, a, t))) by {
+                    assert(told(s2, a, t) <==> ((a == a0 && t == topic@) || (a != a0 && told(s1, a, t))));
+                    if s0.len() == self.current_maximum_alias_value { assert(told(s1, a, t) <==> (a != s0[0].1 && told(s0, a, t))); }
+                }
+                assert forall|i: int| 0 <= i < s2.len() implies 1 <= (#[trigger] s2[i]).1 <= s2.len() by { if i < s1.len() { assert(s2[i] == s1[i]); if s0.len() == self.current_maximum_alias_value { assert(s1[i] == s0[i + 1]); } } }
+                assert forall|i: int, j: int| 0 <= i < j < s2.len() implies (#[trigger] s2[i]).1 != (#[trigger] s2[j]).1 by {
+                    if j < s1.len() { assert(s2[i] == s1[i] && s2[j] == s1[j]); if s0.len() == self.current_maximum_alias_value { assert(s1[i] == s0[i + 1] && s1[j] == s0[j + 1]); } } else { assert(s2[i] == s1[i]); }
+                }
+            }
+//@end
+}
+
 } // verus!
 fn main() {}
